@@ -72,6 +72,9 @@ class Machine:
         self.leaks = []
         self.monitor_frames = False
         self.read_pending_unwritten = []
+        self.isolate_callee_locals = False  # diagnostic switch: locals a callee declares are private to its activation
+        self.act_counter = 0
+        self.act_stack = []
         self.fresh_reads = False  # diagnostic switch: every read of a register written by this instruction returns the new value
 
     # registers
@@ -125,6 +128,7 @@ class Machine:
 
 class Frame:
     def __init__(self, body, params, prog, depth):
+        self.own_locals = set()
         self.body = body
         self.params = params  # name -> closure (pure) | Op | ('c', x)
         self.prog = prog
@@ -398,8 +402,11 @@ class Program:
             return f
         if n == "VARL":
             name = a[0][1]
+            own = fr.own_locals
 
-            def f(m):
+            def f(m, name=name):
+                if m.isolate_callee_locals and name in own and m.act_stack:
+                    name = "%s@%d" % (name, m.act_stack[-1])
                 if name not in m.loc:
                     raise ILError("unset-local", name)
                 if m.monitor_frames and m.depth == 0 and name in m.callee_wrote and name != "ret_val":
@@ -537,8 +544,11 @@ class Program:
         if n == "SETL":
             name = a[0][1]
             val = self.c_pure(a[1], fr)
+            own = fr.own_locals
 
-            def f(m):
+            def f(m, name=name):
+                if m.isolate_callee_locals and name in own and m.act_stack:
+                    name = "%s@%d" % (name, m.act_stack[-1])
                 m.steps += 1
                 v = val(m)
                 old = m.loc.get(name)
@@ -635,16 +645,21 @@ class Program:
             else:
                 params[pn] = ("c", self.c_name(arg, fr))
         nfr = Frame(cb, params, self, fr.depth + 1)
+        # locals the callee declares itself (from the "// Declare:" comments of its body)
+        nfr.own_locals = set(n for _t, n in cb.declares) - {"ret_val"}
         if cb.ret is None:
             raise ILError("malformed", "callee %s has no return" % rname)
         body = self.c_effect(cb.ret, nfr)
 
         def f(m):
             m.depth += 1
+            m.act_counter += 1
+            m.act_stack.append(m.act_counter)
             try:
                 body(m)
             finally:
                 m.depth -= 1
+                m.act_stack.pop()
 
         return f
 
